@@ -1,24 +1,28 @@
 from runner import Harness as H
 
 P = "c40::proofs::"
-UW = [(r"4bstr4utf86decode", 5)]
+def uw(tot):
+    # every loop that walks the input's characters makes at most tot+1 rounds; one UTF-8 scalar is at most 4 bytes
+    return [(r"4bstr4utf86decode", 5), (r"4bstr4utf85Chars.*try_fold|4bstr4utf85Chars.*Iterator", tot + 2), (r"gix_validate4path10is_dot_hfs\.0:", tot + 2)]
 OPT = "protect_windows/protect_hfs/protect_ntfs: all 8 combinations; symlink or not"
 hs = []
 for n in (1, 2, 3, 4, 5, 6):
-    hs.append(H(P + "c40_component_%d" % n, tier="quick" if n <= 5 else "thorough", timeout=900, mem=10, covers=2 if n >= 4 else 1, thorough_timeout=2400, unwindset=UW,
+    hs.append(H(P + "c40_component_%d" % n, tier="quick" if n <= 5 else "thorough", timeout=900, mem=10, covers=2, thorough_timeout=2400, unwindset=uw(n),
                 desc="git's verify_path refuses the component => path::component() refuses it", inputs="all ASCII components of %d bytes without '/', except '.' and '..'; %s" % (n, OPT), bound="unwind 14"))
-for name, what in [("dotgit_t3", "'.git' (any case) + 3 arbitrary ASCII bytes"), ("git1_t2", "'git~1' (any case) + 2 arbitrary ASCII bytes"),
-                   ("gitmodules_t2", "'.gitmodules' (any case) + 2 arbitrary ASCII bytes"), ("gitmod_t3", "'gitmod~' (any case) + 3 arbitrary ASCII bytes"),
-                   ("bs_dotgit_t1", "'a\\\\.git' (any case) + 1 arbitrary ASCII byte")]:
-    hs.append(H(P + "c40_" + name, timeout=900, mem=10, covers=2, unwindset=UW, desc="git refuses => gitoxide refuses, around the spelled-out names", inputs=what + "; " + OPT, bound="unwind 16"))
-hs.append(H(P + "c40_shortname_8", timeout=900, mem=10, covers=2, unwindset=UW, desc="NTFS fall-back short names (gi7eba~N family): git refuses => gitoxide refuses",
+for name, what, tot in [("dotgit_t3", "'.git' (any case) + 3 arbitrary ASCII bytes", 7), ("git1_t2", "'git~1' (any case) + 2 arbitrary ASCII bytes", 7),
+                   ("gitmodules_t2", "'.gitmodules' (any case) + 2 arbitrary ASCII bytes", 13), ("gitmod_t3", "'gitmod~' (any case) + 3 arbitrary ASCII bytes", 10),
+                   ("bs_dotgit_t1", "'a\\\\.git' (any case) + 1 arbitrary ASCII byte", 7)]:
+    hs.append(H(P + "c40_" + name, timeout=900, mem=10, covers=2, unwindset=uw(tot), desc="git refuses => gitoxide refuses, around the spelled-out names", inputs=what + "; " + OPT, bound="unwind 16"))
+hs.append(H(P + "c40_known_backslash_unix", timeout=900, mem=10, covers=0, expect="known_finding", finding="C40-F12", unwindset=uw(6),
+            desc="components containing a backslash, protect_ntfs on, protect_windows off", inputs="6 arbitrary ASCII bytes with at least one backslash", bound="unwind 16"))
+hs.append(H(P + "c40_shortname_8", timeout=900, mem=10, covers=2, unwindset=uw(9), desc="NTFS fall-back short names (gi7eba~N family): git refuses => gitoxide refuses",
             inputs="9 arbitrary ASCII bytes starting with g/G/~; " + OPT, bound="unwind 16"))
 for name in ("git_p0", "git_p1", "git_p3", "git_p4", "gitmodules_p5", "gitmodules_p11"):
-    hs.append(H(P + "c40_hfs_" + name, tier="quick" if name in ("git_p0", "git_p3", "git_p4", "gitmodules_p5") else "thorough", timeout=900, mem=10, covers=2, unwindset=UW,
+    hs.append(H(P + "c40_hfs_" + name, tier="quick" if name in ("git_p0", "git_p3", "git_p4", "gitmodules_p5") else "thorough", timeout=900, mem=10, covers=2, unwindset=uw(15 if "modules" in name else 8),
                 desc="'.git'/'.gitmodules' with one HFS-ignorable code point inserted: git refuses => gitoxide refuses",
                 inputs="insertion position %s; code point: symbolic choice among the 16; symbolic case; optional 1-byte tail; %s" % (name.split("_p")[1], OPT), bound="unwind 18"))
 for name in ("con", "prn", "aux", "nul", "com", "lpt", "conin", "conout"):
-    hs.append(H(P + "c40_dev_" + name, timeout=600, mem=8, covers=2, unwindset=UW, desc="Windows device name (any case, digit 1-9 where applicable) + tail is refused with Windows protections on",
+    hs.append(H(P + "c40_dev_" + name, timeout=600, mem=8, covers=2, unwindset=uw(9), desc="Windows device name (any case, digit 1-9 where applicable) + tail is refused with Windows protections on",
                 inputs="name '%s' + 2-3 arbitrary ASCII tail bytes" % name, bound="unwind 14"))
 
 SPEC = {
@@ -27,7 +31,7 @@ SPEC = {
     "harnesses": hs,
     "functions": ["gix_validate::path::component", "is_dot_hfs", "is_dot_git_ntfs", "is_dot_ntfs", "is_done_ntfs", "is_win_device", "check_win_devices_and_illegal_characters"],
     "bounds": "every ASCII component up to 5 (6 thorough) bytes; the spelled-out names with every case pattern and arbitrary tails of 1-3 bytes; one ignorable code point at the listed positions; all option combinations",
-    "outside": ["'.' and '..' (refused by gix_fs::Stack / the worktree delegate, not by component())", "non-ASCII bytes other than the 16 HFS-ignorable code points (git treats invalid UTF-8 as end of name in its HFS check)",
+    "outside": ["components containing a backslash while protect_windows is off (known finding C40-F12, checked by its own harness)", "'.' and '..' (refused by gix_fs::Stack / the worktree delegate, not by component())", "non-ASCII bytes other than the 16 HFS-ignorable code points (git treats invalid UTF-8 as end of name in its HFS check)",
                 "two or more ignorable code points", "callers in gix-index / gix-worktree / tree editor", "git-for-Windows' is_valid_win32_path beyond reserved device names"],
     "assumptions": ["model_git_refuses is git's verify_path per component (validated against `git update-index --add --cacheinfo` of git 2.39.5 under all protectHFS/protectNTFS settings on > 2000 generated names)",
                     "the device-name list is the property's (CON PRN AUX NUL COM1-9 LPT1-9 CONIN$ CONOUT$, optional spaces, then end/extension/stream)"],
